@@ -226,12 +226,22 @@ func c12ModeName(fl c12Flags) string {
 	return "plain"
 }
 
-// corpus entries of the two streams below (they run first)
+// corpus entries of the three streams below (they run first)
 var c12IsoCorpus = []struct{ kind, src string }{
 	// a map that contains itself, never printed
 	{"cyclic", "package main\nimport \"fmt\"\nfunc main() {\n m := map[string]any{}\n m[\"m\"] = m\n fmt.Println(\"done\", len(m))\n}\n"},
 	// an array that contains itself, never printed
 	{"cyclic", "package main\nimport \"fmt\"\nfunc main() {\n x := []any{nil}\n x[0] = x\n fmt.Println(\"done\", len(x))\n}\n"},
+	// a cycle made ONLY of a pointer and the interface variable it points to; the pointer is merely loaded again
+	{"ptr", "package main\nimport \"fmt\"\nfunc main() {\n var x any\n p := &x\n x = p\n q := p\n fmt.Println(\"ptr ok\", q != nil)\n}\n"},
+	// the same ring through two pointers; moved through a loop, a closure, a channel and a fresh array
+	{"ptr", "package main\nimport \"fmt\"\nfunc main() {\n var x any\n var y any\n p := &x\n q := &y\n x = q\n y = any(p)\n var t any\n for i := 0; i < 2; i = i + 1 {\n  t = q\n }\n fn := func() bool {\n  c := p\n  return c != nil\n }\n ch := make(chan, 2)\n ch <- p\n got := <-ch\n arr := []any{1, q}\n fmt.Println(\"ring ok\", t != nil, fn(), got != nil, len(arr))\n}\n"},
+	// a pointer held by the struct it points to and an open pointer-to-pointer chain: argument, result, deferred argument
+	{"ptr", "package main\nimport \"fmt\"\ntype Node struct {\n v int\n next any\n}\nfunc ident(v any) any {\n return v\n}\nfunc keep(v any) bool {\n w := v\n return w != nil\n}\nfunc main() {\n n := Node{v: 1}\n pn := &n\n n.next = pn\n v := 5\n p1 := &v\n p2 := &p1\n p3 := &p2\n defer func(a any, b any) {\n  fmt.Println(\"deferred\", a != nil, b != nil)\n }(pn, p3)\n r := ident(pn)\n s := ident(p3)\n fmt.Println(\"calls ok\", r != nil, s != nil, keep(pn), keep(p2))\n}\n"},
+	// a pointer to a pointer, closed into a cycle through the interface variable
+	{"ptr", "package main\nimport \"fmt\"\nfunc main() {\n var x any\n p := &x\n pp := &p\n x = pp\n q := pp\n fmt.Println(\"chain ok\", q != nil)\n}\n"},
+	// a pointer stored in the struct / array / map it points to
+	{"ptr", "package main\nimport \"fmt\"\ntype Node struct {\n v int\n next any\n}\nfunc main() {\n n := Node{v: 1}\n pn := &n\n n.next = pn\n a := []any{nil, 2}\n pa := &a\n a[0] = pa\n m := map[string]any{\"k\": 3}\n pm := &m\n m[\"self\"] = pm\n q1 := pn\n q2 := pa\n q3 := pm\n fmt.Println(\"held ok\", q1 != nil, q2 != nil, q3 != nil)\n}\n"},
 	// wait group workers launched from a loop: the launcher's next statement runs while its context is still marked shared
 	{"go", "package main\nimport \"fmt\"\nimport \"sync\"\nfunc worker(id int, wg *sync.WaitGroup) {\n wg.Done()\n}\nfunc main() {\n var wg sync.WaitGroup\n n := 3\n wg.Add(n)\n for i := 0; i < n; i++ {\n  go worker(i, &wg)\n }\n wg.Wait()\n fmt.Println(\"all workers done\")\n}\n"},
 	// channel + mutex + closure goroutines
@@ -394,6 +404,186 @@ func c12GenCyclicSource(r *rand.Rand) string {
 			g.line("fmt.Println(\"field\", n%d.v)", k)
 		default:
 			g.line("fmt.Println(\"step\", %d)", g.uid)
+		}
+	}
+	g.line("fmt.Println(\"end\")")
+	g.ind--
+	g.line("}")
+	return g.sb.String()
+}
+
+// ---------------------------------------------------------------- cycles of pointers and interface wrappers
+
+// c12GenPtrSource: programs whose self-containing value is (or is reached through) a POINTER: rings made only of
+// pointers and the `any` variables they point to (var x any; p := &x; x = p), the same with an explicit any(..)
+// wrapper, pointer-to-pointer chains closed into a ring or left open, and a pointer stored in the struct / array /
+// map it points to.  The pointer is then only MOVED — loaded into another variable, passed as an (any / typed)
+// argument, returned, returned in a tuple, captured as the argument of a deferred call, sent through a channel,
+// stored in and read from a fresh container, captured by a closure, dereferenced — and never printed or formatted:
+// only booleans and integers are printed.
+func c12GenPtrSource(r *rand.Rand) string {
+	g := &c12Src{r: r}
+	g.line("package main")
+	g.line("import \"fmt\"")
+	g.line("type Node struct {")
+	g.line("  v int")
+	g.line("  next any")
+	g.line("}")
+	g.line("func ident(v any) any {")
+	g.line("  return v")
+	g.line("}")
+	g.line("func keep(v any) bool {")
+	g.line("  w := v")
+	g.line("  return w != nil")
+	g.line("}")
+	g.line("func pair(v any) (any, int) {")
+	g.line("  return v, 7")
+	g.line("}")
+	g.line("func relay(v any, n int) any {")
+	g.line("  if n <= 0 {")
+	g.line("    return v")
+	g.line("  }")
+	g.line("  return relay(v, n - 1)")
+	g.line("}")
+	g.line("func main() {")
+	g.ind++
+	// variables that hold a pointer taking part in (or leading to) the structure.  pure = the cycle has no map, array
+	// or struct in it: data.TypeOf follows such a pointer without bound, so handing it to ANY function parameter or
+	// result (declared type checks call TypeOf) ends the PLAIN run with Go's stack overflow — not a diagnostics
+	// matter; those handles are only moved by forms that do not go through a call boundary.
+	type handle struct {
+		name string
+		pure bool
+	}
+	var handles []handle
+	add := func(pure bool, names ...string) {
+		for _, n := range names {
+			handles = append(handles, handle{n, pure})
+		}
+	}
+	for s, ns := 0, 1+r.Intn(2); s < ns; s++ {
+		g.uid++
+		u := g.uid
+		wrap := func(e string) string { // sometimes through an explicit interface wrapper
+			if r.Intn(3) == 0 {
+				return "any(" + e + ")"
+			}
+			return e
+		}
+		switch r.Intn(8) {
+		case 0: // the pointer points at the variable that holds it
+			g.line("var x%d any", u)
+			g.line("p%d := &x%d", u, u)
+			g.line("x%d = %s", u, wrap(fmt.Sprintf("p%d", u)))
+			add(true, fmt.Sprintf("p%d", u))
+		case 1: // a ring of 2..4 pointers
+			n := 2 + r.Intn(3)
+			for i := 0; i < n; i++ {
+				g.line("var x%d_%d any", u, i)
+				g.line("p%d_%d := &x%d_%d", u, i, u, i)
+			}
+			for i := 0; i < n; i++ {
+				g.line("x%d_%d = %s", u, i, wrap(fmt.Sprintf("p%d_%d", u, (i+1)%n)))
+			}
+			add(true, fmt.Sprintf("p%d_%d", u, r.Intn(n)))
+		case 2: // pointer to pointer (to pointer), closed into a ring
+			g.line("var x%d any", u)
+			g.line("p%d := &x%d", u, u)
+			g.line("pp%d := &p%d", u, u)
+			top := fmt.Sprintf("pp%d", u)
+			if r.Intn(2) == 0 {
+				g.line("ppp%d := &pp%d", u, u)
+				top = fmt.Sprintf("ppp%d", u)
+			}
+			g.line("x%d = %s", u, wrap(top))
+			add(true, top, fmt.Sprintf("p%d", u))
+		case 3: // an open pointer-to-pointer chain (no cycle)
+			g.line("v%d := %d", u, u)
+			g.line("p%d := &v%d", u, u)
+			g.line("pp%d := &p%d", u, u)
+			g.line("ppp%d := &pp%d", u, u)
+			add(false, fmt.Sprintf("ppp%d", u), fmt.Sprintf("pp%d", u))
+		case 4: // a pointer stored in the struct it points to
+			g.line("n%d := Node{v: %d}", u, u)
+			g.line("p%d := &n%d", u, u)
+			g.line("n%d.next = %s", u, wrap(fmt.Sprintf("p%d", u)))
+			add(false, fmt.Sprintf("p%d", u))
+		case 5: // … in the array it points to
+			g.line("a%d := []any{nil, %d}", u, u)
+			g.line("p%d := &a%d", u, u)
+			g.line("a%d[0] = %s", u, wrap(fmt.Sprintf("p%d", u)))
+			add(false, fmt.Sprintf("p%d", u))
+		case 6: // … in the map it points to
+			g.line("m%d := map[string]any{\"k\": %d}", u, u)
+			g.line("p%d := &m%d", u, u)
+			g.line("m%d[\"self\"] = %s", u, wrap(fmt.Sprintf("p%d", u)))
+			add(false, fmt.Sprintf("p%d", u))
+		default: // an interface variable that holds a pointer to an interface variable that holds a pointer to the first
+			g.line("var x%d any", u)
+			g.line("var y%d any", u)
+			g.line("x%d = any(&y%d)", u, u)
+			g.line("y%d = any(&x%d)", u, u)
+			g.line("p%d := &x%d", u, u)
+			add(true, fmt.Sprintf("p%d", u))
+		}
+		g.line("fmt.Println(\"built\", %d)", s)
+	}
+	for i, m := 0, 2+r.Intn(5); i < m; i++ {
+		hd := handles[r.Intn(len(handles))]
+		h := hd.name
+		g.uid++
+		u := g.uid
+		form := r.Intn(12)
+		if hd.pure {
+			form = []int{0, 0, 5, 6, 7, 9, 10, 11}[r.Intn(8)]
+		}
+		switch form {
+		case 0: // merely loaded and stored again
+			g.line("q%d := %s", u, h)
+			g.line("fmt.Println(\"moved\", q%d != nil)", u)
+		case 1: // argument of an any parameter
+			g.line("fmt.Println(\"arg\", keep(%s))", h)
+		case 2: // returned
+			g.line("r%d := ident(%s)", u, h)
+			g.line("fmt.Println(\"returned\", r%d != nil)", u)
+		case 3: // returned in a tuple
+			g.line("r%d, k%d := pair(%s)", u, u, h)
+			g.line("fmt.Println(\"pair\", k%d, r%d != nil)", u, u)
+		case 4: // argument of a deferred call
+			g.line("defer func(v any) {")
+			g.line("  fmt.Println(\"deferred %d\", v != nil)", u)
+			g.line("}(%s)", h)
+		case 5: // through a channel
+			g.line("ch%d := make(chan, 2)", u)
+			g.line("ch%d <- %s", u, h)
+			g.line("got%d := <-ch%d", u, u)
+			g.line("fmt.Println(\"chan\", got%d != nil)", u)
+		case 6: // element of a fresh array that is ranged over
+			g.line("arr%d := []any{%d, %s}", u, u, h)
+			g.line("for i%d, e%d := range arr%d {", u, u, u)
+			g.line("  fmt.Println(\"range\", i%d, e%d != nil)", u, u)
+			g.line("}")
+		case 7: // captured by a closure
+			g.line("fn%d := func() bool {", u)
+			g.line("  c := %s", h)
+			g.line("  return c != nil")
+			g.line("}")
+			g.line("fmt.Println(\"closure\", fn%d())", u)
+		case 8: // through several call frames
+			g.line("r%d := relay(%s, %d)", u, h, 1+r.Intn(3))
+			g.line("fmt.Println(\"relayed\", r%d != nil)", u)
+		case 9: // assigned in a loop
+			g.line("var t%d any", u)
+			g.line("for i%d := 0; i%d < %d; i%d = i%d + 1 {", u, u, 1+r.Intn(3), u, u)
+			g.line("  t%d = %s", u, h)
+			g.line("}")
+			g.line("fmt.Println(\"looped\", t%d != nil)", u)
+		case 10: // value of a fresh map
+			g.line("mm%d := map[string]any{\"h\": %s}", u, h)
+			g.line("fmt.Println(\"in map\", len(mm%d))", u)
+		default: // dereferenced
+			g.line("d%d := *%s", u, h)
+			g.line("fmt.Println(\"deref\", d%d != nil)", u)
 		}
 	}
 	g.line("fmt.Println(\"end\")")
